@@ -562,8 +562,19 @@ func runC14(w *World, r *Report) {
 					}
 				}
 				if mi, ok := ref.(*ssa.MakeInterface); ok {
-					// stored as parser.Generator: instance may be shared between iterations/closures
-					_ = mi
+					// handed out as parser.Generator: fine when it is only returned (a fresh instance per call of the closure)
+					onlyReturned := true
+					for _, r2 := range *mi.Referrers() {
+						if _, isRet := r2.(*ssa.Return); !isRet {
+							onlyReturned = false
+						}
+					}
+					if onlyReturned {
+						continue
+					}
+				}
+				if _, isRet := ref.(*ssa.Return); isRet {
+					continue
 				}
 				escapes = true
 			}
@@ -578,7 +589,20 @@ func runC14(w *World, r *Report) {
 			scan(an)
 		}
 	}
-	scan(compile)
+	// Compile, the cmd helpers it calls, and every closure of the package (table entries may be package-level closures)
+	scanned := map[*ssa.Function]bool{}
+	for _, fn := range newDriver(w).sortedFns() {
+		if !scanned[fn] {
+			scanned[fn] = true
+			scan(fn)
+		}
+	}
+	for _, fn := range w.srcFuncs {
+		if fn.Pkg == w.Cmd && fn.Parent() != nil && !scanned[fn] && !scanned[fn.Parent()] {
+			scanned[fn] = true
+			scan(fn)
+		}
+	}
 	r.RuleCounts[ruleDrv] += 0
 	if ctorSeen < len(generators) {
 		r.fail(ruleDrv, "constructor-calls", w.pos(compile.Pos()), fmt.Sprintf("expected %d generator constructions under cmd.Compile, found %d", len(generators), ctorSeen))
